@@ -155,3 +155,14 @@ Definition package_clause (configured_name : rstr) (existing_name : option rstr)
   | _ :: _ => configured_name
   | [] => match existing_name with Some n => n | None => guess_alias pkg_path end
   end.
+
+(* ---- converters sharing an output file (generator/filemanager.go Get) ---- *)
+(* identity of a converter's output package: path, or path:name when a name is known (configured, or taken
+   from the package existing at the target) *)
+Definition package_id (path name : rstr) : rstr :=
+  match name with [] => path | _ => path ++ 58 :: name end.
+Definition effective_name (configured : rstr) (existing : option rstr) : rstr :=
+  match configured with _ :: _ => configured | [] => match existing with Some n => n | None => [] end end.
+(* the second converter selecting a file is accepted iff its identity equals the first one's *)
+Definition same_file_accepts (a b : rstr * rstr) : bool :=
+  rstr_eqb (package_id (fst a) (snd a)) (package_id (fst b) (snd b)).
